@@ -123,10 +123,10 @@ def PT(prop, own, **kw):
     return d
 
 PROPS = {
-    "C01": PT("C01", "c01", bounds="one mapper call from every pre-state of 80 (quick) / 400 (thorough) concrete-skeleton instances x all symbolic contents; pool of 8 table frames; histories by induction on WF over the instance family, not for all addresses"),
+    "C01": PT("C01", "c01", bounds="one mapper call (map_to_with_table_flags / unmap / update_flags / translate, translate_addr, translate_page; 3 page sizes) from every pre-state of 179 (quick) / about 690 (thorough) concrete-skeleton instances x all symbolic contents, for MappedPageTable (122/484 instances) and RecursivePageTable (57/202); pool of 8 table frames; histories only by induction on WF over the instance family (no multi-call sequences, not for all addresses); clean_up preservation via one C10 instance"),
     "C02": PT("C02", "c02", bounds="as C01; every allocator failure position (0..3) is its own instance"),
     "C10": dict(K("c10", **_PT), own_labels_only=True, jobs=4, mem_gb=24, harness_timeout=2400, harness_timeout_thorough=5400, total_timeout=5000,
-                bounds="MappedPageTable only; 11 (quick) / 16 (thorough) concrete skeleton x range instances (<= 2 populated entries per table, <= 7 tables), symbolic leaf contents decide which tables are empty; loops fully unrolled (unwind 514)",
+                bounds="MappedPageTable only; 4 (quick) / 15 (thorough) concrete skeleton x range instances (<= 2 populated entries per table, <= 7 tables), symbolic leaf contents decide which tables are empty; loops fully unrolled (unwind 514)",
                 assumptions=["regime R2- as C01 (concrete skeleton, symbolic level-1 leaves)", "RecursivePageTable::clean_up is not driven (recursive slot exclusion undecided)"]),
     "C09": PT("C09", "c09", bounds="as C01; frame rule on 24 witness slots per instance (every written slot, neighbours, slots 0/511 of free frames)"),
     "C04": K("c04", bounds="no loop; all canonical addresses, all index tuples in 0..512^4, all u16"),
